@@ -5,7 +5,7 @@
 From Boreal Require Import Base.Prelude Spec.Regex Model.Hir Model.Widen Model.Validator Model.SimpleValidator Model.Raw
   Model.HirScan Model.Decomp Model.HexCase
   Proofs.HexScanProofs Proofs.SimpleProofs Proofs.ValidatorProofs Proofs.DecompProofs Proofs.HexProofs Proofs.HexHirProofs
-  Proofs.AltsProofs Proofs.SpanProofs Proofs.HexWitnesses.
+  Proofs.AltsProofs Proofs.SpanProofs Proofs.HexWitnesses Proofs.HexOnePerOffset.
 From Coq Require Import Sorted.
 
 (* Ordered, one match per offset: every string that goes through the Aho-Corasick pass, any
@@ -14,6 +14,17 @@ Theorem C02_ac_scan_ascending :
   forall use_sp d mem max_nb,
     StronglySorted (fun a b => fst a < fst b) (ac_scan use_sp d mem max_nb).
 Proof. exact ac_scan_ascending. Qed.
+
+(* ... said directly: the reported offsets are pairwise distinct, and two reported matches at the same
+   offset are the same match *)
+Theorem C02_offsets_distinct :
+  forall use_sp d mem max_nb, NoDup (map fst (ac_scan use_sp d mem max_nb)).
+Proof. exact ac_scan_offsets_distinct. Qed.
+
+Theorem C02_one_per_offset :
+  forall use_sp d mem max_nb x y,
+    In x (ac_scan use_sp d mem max_nb) -> In y (ac_scan use_sp d mem max_nb) -> fst x = fst y -> x = y.
+Proof. exact ac_scan_one_per_offset. Qed.
 
 (* Soundness: for ANY decomposition with the glue half of `Decomp` (not needed when the end is
    computed by the whole pattern), every input, with or without start_position, any limit. *)
@@ -204,3 +215,5 @@ Print Assumptions C02_start_position_refuted.
 Print Assumptions C02_alt_glue_refuted.
 Print Assumptions C02_alt_first_post_pinned_refuted.
 Print Assumptions C02_length_by_arrival_refuted.
+Print Assumptions C02_offsets_distinct.
+Print Assumptions C02_one_per_offset.
